@@ -102,7 +102,11 @@ def _get_ast_node_variables(node: ast.AST, aliases: Mapping) -> list[Variable]:
                 if variable.split(".", 1)[0] not in bound
             )
             continue
-        if not isinstance(node, (ast.Call, ast.Attribute, ast.Name)):
+        if not isinstance(node, (ast.Call, ast.Attribute, ast.Name)) or not _is_named(
+            node.func if isinstance(node, ast.Call) else node
+        ):
+            # (this includes calls and attribute lookups on the value of another
+            # expression, e.g. `f(a)(b)`, `x[0](a)` or `(u + v).sum()`)
             todo.extend(ast.iter_child_nodes(node))
             continue
         name = _get_ast_node_name(node)
@@ -115,6 +119,12 @@ def _get_ast_node_variables(node: ast.AST, aliases: Mapping) -> list[Variable]:
             variables.append(Variable(name, roles=["value"]))
 
     return variables
+
+
+def _is_named(node: ast.AST) -> bool:
+    return isinstance(node, ast.Name) or (
+        isinstance(node, ast.Attribute) and _is_named(node.value)
+    )
 
 
 def _get_ast_node_name(node: ast.AST) -> str:
